@@ -49,16 +49,18 @@ META = dict(
           "a member whose atoms are not already listed in the order of its Hill form, or that is grouped, or whose "
           "class contains a pair of atoms the sort must order (>= 2 distinct atoms)."),
     bound=dict(
-        quick=("n <= 3 entries.  struct / dict / arith: complete.  parse: n <= 2 complete (every permutation x "
-               "every grouping); n = 3: every class once in the order of its Hill form (flat), and for the classes "
-               "with all counts 1 every permutation flat and every grouping of the enumeration order"),
-        thorough=("n <= 4 entries.  struct: n <= 3 complete; n = 4 every permutation flat for all classes, every "
-                  "grouping of every permutation for classes with all counts 1, every single-level grouping for "
-                  "classes with counts (2,1,1,0.5) pattern-free subset stated in info['n4_struct_rule'].  dict / arith: "
-                  "complete.  parse: n <= 2 complete; n = 3 every permutation flat for all classes and every "
-                  "permutation x every grouping for classes with all counts 1; n = 4 every class once in the order "
-                  "of its Hill form, all-ones classes every permutation flat and every single-level grouping of the "
-                  "enumeration order")),
+        quick=("classes of n <= 3 entries.  dict (every insertion order), arith (3 spellings x every permutation), "
+               "struct flat x every permutation: complete.  struct groupings: n <= 2 all; n = 3 all 15 per permutation "
+               "for classes with all counts 1, the 7 single-level ones for the others.  parse: n <= 2 every permutation "
+               "x every grouping; n = 3: every class once written in the order of its Hill form (check e), classes "
+               "with all counts 1 also every permutation flat and every grouping of the first permutation"),
+        thorough=("classes of n <= 4 entries.  n <= 3: struct (every permutation x all groupings), dict, arith complete; "
+                  "parse: n <= 2 complete, n = 3 every permutation flat for every class, every permutation x every "
+                  "grouping for all-ones classes, every class once in Hill order.  n = 4: struct flat x every "
+                  "permutation and dict in every insertion order for every class; all 93 groupings per permutation "
+                  "for all-ones classes; arith and the Hill-order string for all-ones classes and classes with counts "
+                  "{2, 1, 1, 0.5}; parse for all-ones classes: every permutation flat, every single-level grouping of "
+                  "the first permutation")),
     assumptions=[
         "the order of D and T is not judged (symbol 'D'/'T' vs. hydrogen isotopes by mass number); only canonicity, "
         "composition and idempotence are required of formulas containing them",
@@ -187,47 +189,50 @@ def _flat(seq):
     return [[c, t] for t, c in seq]
 
 
-def members(E, entries, n, tier, all_ones):
-    """Yield member specs of the class (see META.bound for the parse subset)."""
-    perms = sorted(set(itertools.permutations(entries)))
+def plan(n, tier, entries):
+    """Which spellings a class of n entries gets (this IS the bound; META.bound describes it)."""
+    ones = all(c == 1 for t, c in entries)
+    mixed = sorted(c for t, c in entries) == [0.5, 1, 1, 2]
     quick = tier == "quick"
+    if n <= 2:
+        return dict(group="all", arith=True, parse_flat=True, parse_group="all", parse_hill=True)
+    if n == 3 and quick:
+        return dict(group="all" if ones else "single", arith=True, parse_flat=ones,
+                    parse_group="first" if ones else None, parse_hill=True)
+    if n == 3:
+        return dict(group="all", arith=True, parse_flat=True, parse_group="all" if ones else None, parse_hill=True)
+    return dict(group="all" if ones else "flat", arith=ones or mixed, parse_flat=ones,
+                parse_group="first-single" if ones else None, parse_hill=ones or mixed)
+
+
+def members(E, entries, n, tier, P):
+    """Yield member specs of the class."""
+    perms = sorted(set(itertools.permutations(entries)))
     tok = lambda t: t
     for pi, perm in enumerate(perms):
         seq = list(perm)
-        if n <= 2 or all_ones or (n == 3 and not quick):
-            trees = list(R.groupings(seq))
-        elif n == 3:
-            trees = list(R.groupings(seq, depth=1))
-        elif _n4_single_level(entries):
-            trees = list(R.groupings(seq, depth=1))
+        if P["group"] == "all":
+            trees = R.groupings(seq)
+        elif P["group"] == "single":
+            trees = R.groupings(seq, depth=1)
         else:
             trees = [_flat(seq)]
         for ti, tree in enumerate(trees):
             yield ["struct", tree]
-            flat = ti == 0
-            if n <= 2:
-                p = True
-            elif n == 3:
-                if quick:
-                    p = all_ones and (flat or pi == 0)
-                else:
-                    p = flat or all_ones
+            if ti == 0:
+                p = P["parse_flat"]
             else:
-                p = all_ones and (flat or (pi == 0 and _depth(tree) <= 1))
+                pg = P["parse_group"]
+                p = (pg == "all" or (pg == "first" and pi == 0)
+                     or (pg == "first-single" and pi == 0 and _depth(tree) <= 1))
             if p:
                 yield ["parse", R.text(tree, tok)]
-        for how in ("add", "iadd", "twice"):
-            yield ["arith", how, [[t, c] for t, c in seq]]
+        if P["arith"]:
+            for how in ("add", "iadd", "twice"):
+                yield ["arith", how, [[t, c] for t, c in seq]]
     tot = R.merged([(E.first_token[id(E.atom[t])], c) for t, c in entries])
     for order in itertools.permutations(list(tot)):
         yield ["dict", [[t, tot[t]] for t in order]]
-
-
-def _n4_single_level(entries):
-    """n = 4 classes (beyond all-ones) that get every single-level grouping: exactly one entry of each
-    count 2 and 0.5 and two entries of count 1."""
-    cs = sorted(c for t, c in entries)
-    return cs == [0.5, 1, 1, 2]
 
 
 def _depth(tree):
@@ -456,16 +461,16 @@ def _order_class(E, hs):
 
 def check_class(E, entries, acc, tier):
     n = len(entries)
-    all_ones = all(c == 1 for t, c in entries)
+    P = plan(n, tier, entries)
     cc = ClassCheck(E, entries, acc)
     v0 = acc.vcount
     k = 0
-    for spec in members(E, entries, n, tier, all_ones):
+    for spec in members(E, entries, n, tier, P):
         cc.member(spec)
         k += 1
         if acc.vcount != v0:
             break                # one report per class: the rest of a broken class adds only noise
-    if acc.vcount == v0:
+    if acc.vcount == v0 and P["parse_hill"]:
         cc.finish()
     acc.transitions += k
     if cc.distinct_atoms >= 2:
@@ -510,8 +515,6 @@ def run(ctx):
     ctx.pmap(_shard, jobs)
     acc = ctx.acc
     acc.info["max_entries_completed"] = nmax
-    acc.info["n4_struct_rule"] = ("n = 4: all groupings for all-ones classes, single-level groupings for classes "
-                                  "with counts {2, 1, 1, 0.5}, flat for the rest")
     skipped = acc.info.get("members_not_in_class", 0) + acc.info.get("members_not_built", 0)
     if skipped:
         acc.cap("%d member spellings did not denote the intended atoms (construction is C01/C02) and were "
